@@ -465,9 +465,10 @@ package tlog
 //@   props C01 C13
 //@ func RecordHash
 //@   allocates
-//@   trusted "SHA-256 of the record text; here: a function of the text"
-//@   ensures result == RHASH(string(data))
-//@   props C01 C13
+//@   modifies ghost.WRITTEN
+//@   ensures [C09] leaf_hash: result == RHASH(string(data))
+//@   uses hash_bytes
+//@   props C01 C13 C09
 //@ func ParseRecord
 //@   allocates
 //@   trusted "text codec; here: a relation between the message and its parts"
